@@ -509,6 +509,11 @@ func (inst *InstCall) Operands() []*value.Value {
 	for i := range inst.Args {
 		ops = append(ops, &inst.Args[i])
 	}
+	for i := range inst.OperandBundles {
+		for j := range inst.OperandBundles[i].Inputs {
+			ops = append(ops, &inst.OperandBundles[i].Inputs[j])
+		}
+	}
 	return ops
 }
 
